@@ -332,7 +332,13 @@ def run_check_locked(P, tier, seed, replay=None, only_tie=None):
         trusted_base=trusted, evaluations=evaluations, distinct_nontrivial=len(distinct),
         rule=P.RULE, samples=samples[:12], input_distribution=dist,
         known_findings_reported=known_lines, notes=notes))
-    core.write_evidence(pid, tier, int(seed), P.LEVEL, coverage, list(getattr(P, "ASSUMPTIONS", [])),
+    level = P.LEVEL
+    if level == "partial":
+        # the schema has no "partial" category (DESIGN.md section 6): proved theorems with a named residue are
+        # reported at level proof, the residue is spelled out in the manifest's level text/note and here
+        level = "proof"
+        coverage["partial"] = "some clauses of the statement are not theorems about the model; see MANIFEST level_note"
+    core.write_evidence(pid, tier, int(seed), level, coverage, list(getattr(P, "ASSUMPTIONS", [])),
                         time.time() - t0, len(viol_lines))
     for l in known_lines:
         print(l)
